@@ -24,31 +24,45 @@ func TestC10(t *testing.T) {
 		ops   []Op
 		fault int // index into ops of the faulted call (-1 none)
 		f     FaultSpec
+		small bool // one pod, one 4-core node
 	}{
-		{"create-alloc-second-node", []Op{{Kind: "create", Pod: 0, Count: 3, CPU: 50, Mem: 400}}, 0, FaultSpec{Method: "Alloc", Target: "*", Ord: 1}},
-		{"create-processing-first-node", []Op{{Kind: "create", Pod: 0, Count: 2, CPU: 50, Mem: 100}}, 0, FaultSpec{Method: "CreateProcessing", Target: "*", Ord: 0}},
-		{"create-log-processing", []Op{{Kind: "create", Pod: 0, Count: 1, CPU: 50, Mem: 100}}, 0, FaultSpec{Method: "Log", Target: "create-processing", Ord: 0}},
-		{"create-start-fails", []Op{{Kind: "create", Pod: 0, Count: 3, CPU: 50, Mem: 100}}, 0, FaultSpec{Method: "VirtualizationStart", Target: "*", Ord: 1}},
-		{"create-getnode-fails", []Op{{Kind: "create", Pod: 0, Count: 2, CPU: 50, Mem: 100}}, 0, FaultSpec{Method: "GetNode", Target: "*", Ord: 0}},
-		{"realloc-update-fails", []Op{{Kind: "create", Pod: 0, Count: 1, CPU: 50, Mem: 100}, {Kind: "realloc", CPU: 50, Mem: 100}}, 1, FaultSpec{Method: "UpdateWorkload", Target: "*", Ord: 0}},
-		{"realloc-engine-fails", []Op{{Kind: "create", Pod: 0, Count: 1, CPU: 50, Mem: 100}, {Kind: "realloc", CPU: 50, Mem: 100}}, 1, FaultSpec{Method: "VirtualizationUpdateResource", Target: "*", Ord: 0}},
-		{"remove-engine-fails", []Op{{Kind: "create", Pod: 0, Count: 2, CPU: 50, Mem: 100}, {Kind: "remove", Force: true}}, 1, FaultSpec{Method: "VirtualizationRemove", Target: "*", Ord: 0}},
-		{"removenode-plugin-fails", []Op{{Kind: "removenode", Node: 2}}, 0, FaultSpec{Method: "RemoveNode", Target: "n2", Ord: 1}},
-		{"setnode-update-fails", []Op{{Kind: "setnode", Node: 1, SetMem: true, Delta: true, Mem: 500}}, 0, FaultSpec{Method: "UpdateNodes", Target: "*", Ord: 0}},
-		{"replace-remove-old-fails", []Op{{Kind: "create", Pod: 0, Count: 1, CPU: 50, Mem: 100}, {Kind: "replace"}}, 1, FaultSpec{Method: "RemoveWorkload", Target: "*", Ord: 0}},
-		{"addnode-store-fails", []Op{{Kind: "addnode", Node: 7, Pod: 1, CPU: 400, Mem: 1000}}, 0, FaultSpec{Method: "AddNode", Target: "n7", Ord: 1}},
-		{"create-add-workload-fails-late", []Op{{Kind: "create", Pod: 0, Count: 5, CPU: 50, Mem: 100}}, 0, FaultSpec{Method: "AddWorkload", Target: "*", Ord: 3}},
-		{"create-inspect-fails", []Op{{Kind: "create", Pod: 1, Count: 4, CPU: 50, Mem: 100}}, 0, FaultSpec{Method: "VirtualizationInspect", Target: "*", Ord: 2}},
-		{"no-fault-mixed", []Op{{Kind: "create", Pod: 0, Count: 4, CPU: 100, Mem: 300}, {Kind: "create", Pod: 1, Count: 2, CPU: 50, Mem: 700}, {Kind: "remove", Force: false}, {Kind: "dissociate"}}, -1, FaultSpec{}},
+		{"create-alloc-second-node", []Op{{Kind: "create", Pod: 0, Count: 3, CPU: 50, Mem: 400}}, 0, FaultSpec{Method: "Alloc", Target: "*", Ord: 1}, false},
+		{"create-processing-first-node", []Op{{Kind: "create", Pod: 0, Count: 2, CPU: 50, Mem: 100}}, 0, FaultSpec{Method: "CreateProcessing", Target: "*", Ord: 0}, false},
+		{"create-log-processing", []Op{{Kind: "create", Pod: 0, Count: 1, CPU: 50, Mem: 100}}, 0, FaultSpec{Method: "Log", Target: "create-processing", Ord: 0}, false},
+		{"create-start-fails", []Op{{Kind: "create", Pod: 0, Count: 3, CPU: 50, Mem: 100}}, 0, FaultSpec{Method: "VirtualizationStart", Target: "*", Ord: 1}, false},
+		{"create-getnode-fails", []Op{{Kind: "create", Pod: 0, Count: 2, CPU: 50, Mem: 100}}, 0, FaultSpec{Method: "GetNode", Target: "*", Ord: 0}, false},
+		{"realloc-update-fails", []Op{{Kind: "create", Pod: 0, Count: 1, CPU: 50, Mem: 100}, {Kind: "realloc", CPU: 50, Mem: 100}}, 1, FaultSpec{Method: "UpdateWorkload", Target: "*", Ord: 0}, false},
+		{"realloc-engine-fails", []Op{{Kind: "create", Pod: 0, Count: 1, CPU: 50, Mem: 100}, {Kind: "realloc", CPU: 50, Mem: 100}}, 1, FaultSpec{Method: "VirtualizationUpdateResource", Target: "*", Ord: 0}, false},
+		{"remove-engine-fails", []Op{{Kind: "create", Pod: 0, Count: 2, CPU: 50, Mem: 100}, {Kind: "remove", Force: true}}, 1, FaultSpec{Method: "VirtualizationRemove", Target: "*", Ord: 0}, false},
+		{"removenode-plugin-fails", []Op{{Kind: "removenode", Node: 2}}, 0, FaultSpec{Method: "RemoveNode", Target: "n2", Ord: 1}, false},
+		{"setnode-update-fails", []Op{{Kind: "setnode", Node: 1, SetMem: true, Delta: true, Mem: 500}}, 0, FaultSpec{Method: "UpdateNodes", Target: "*", Ord: 0}, false},
+		{"replace-remove-old-fails", []Op{{Kind: "create", Pod: 0, Count: 1, CPU: 50, Mem: 100}, {Kind: "replace"}}, 1, FaultSpec{Method: "RemoveWorkload", Target: "*", Ord: 0}, false},
+		{"addnode-store-fails", []Op{{Kind: "addnode", Node: 7, Pod: 1, CPU: 400, Mem: 1000}}, 0, FaultSpec{Method: "AddNode", Target: "n7", Ord: 1}, false},
+		{"create-add-workload-fails-late", []Op{{Kind: "create", Pod: 0, Count: 5, CPU: 50, Mem: 100}}, 0, FaultSpec{Method: "AddWorkload", Target: "*", Ord: 3}, false},
+		{"create-inspect-fails", []Op{{Kind: "create", Pod: 1, Count: 4, CPU: 50, Mem: 100}}, 0, FaultSpec{Method: "VirtualizationInspect", Target: "*", Ord: 2}, false},
+		{"create-log-workload-fails", []Op{{Kind: "create", Pod: 0, Count: 2, CPU: 50, Mem: 100}}, 0, FaultSpec{Method: "Log", Target: "create-workload", Ord: 0}, false},
+		{"create-log-workload-fails-2nd", []Op{{Kind: "create", Pod: 0, Count: 3, CPU: 100, Mem: 100, Bind: true}}, 0, FaultSpec{Method: "Log", Target: "create-workload", Ord: 1}, true},
+		{"replace-log-workload-fails", []Op{{Kind: "create", Pod: 0, Count: 1, CPU: 50, Mem: 100}, {Kind: "replace"}}, 1, FaultSpec{Method: "Log", Target: "create-workload", Ord: 0}, false},
+		{"bound-start-2nd-fails", []Op{{Kind: "create", Pod: 0, Count: 3, CPU: 100, Mem: 100, Bind: true}}, 0, FaultSpec{Method: "VirtualizationStart", Target: "*", Ord: 1}, true},
+		{"bound-start-3rd-fails", []Op{{Kind: "create", Pod: 0, Count: 3, CPU: 100, Mem: 100, Bind: true}}, 0, FaultSpec{Method: "VirtualizationStart", Target: "*", Ord: 2}, true},
+		{"bound-addworkload-2nd-fails", []Op{{Kind: "create", Pod: 0, Count: 3, CPU: 100, Mem: 100, Bind: true}}, 0, FaultSpec{Method: "AddWorkload", Target: "*", Ord: 1}, true},
+		{"addnode-duplicate", []Op{{Kind: "create", Pod: 0, Count: 2, CPU: 50, Mem: 100}, {Kind: "addnode", Node: 0, Pod: 0, CPU: 400, Mem: 1000}, {Kind: "addnode", Node: 1, Pod: 1, CPU: 400, Mem: 2000}}, -1, FaultSpec{}, false},
+		{"addnode-missing-pod", []Op{{Kind: "addnode", Node: 7, Pod: 5, CPU: 400, Mem: 1000}}, -1, FaultSpec{}, false},
+		{"remove-missing-workload", []Op{{Kind: "create", Pod: 0, Count: 1, CPU: 50, Mem: 100}, {Kind: "remove", IDs: []string{"99.n0.0"}, Force: true}, {Kind: "dissociate", IDs: []string{"99.n0.0"}}, {Kind: "realloc", IDs: []string{"99.n0.0"}, CPU: 50, Mem: 100}}, -1, FaultSpec{}, false},
+		{"no-fault-mixed", []Op{{Kind: "create", Pod: 0, Count: 4, CPU: 100, Mem: 300}, {Kind: "create", Pod: 1, Count: 2, CPU: 50, Mem: 700}, {Kind: "remove", Force: false}, {Kind: "dissociate"}}, -1, FaultSpec{}, false},
 	}
 	for _, c := range corpus {
 		d := newDriver(t, r.Rng, true)
 		h := &history{Strict: true}
-		d.setup(h, 2, 3, 1000)
+		if c.small {
+			d.setupSmall(h)
+		} else {
+			d.setup(h, 2, 3, 1000)
+		}
 		for i, o := range c.ops {
 			d.opi++
 			o.Opi = d.opi
-			if o.Kind == "remove" || o.Kind == "dissociate" || o.Kind == "realloc" || o.Kind == "replace" {
+			if len(o.IDs) == 0 && (o.Kind == "remove" || o.Kind == "dissociate" || o.Kind == "realloc" || o.Kind == "replace") {
 				live := d.liveList()
 				if len(live) == 0 {
 					continue
@@ -60,7 +74,11 @@ func TestC10(t *testing.T) {
 				ff := c.f
 				f = &ff
 			}
-			h.Steps = append(h.Steps, d.run(o, f))
+			st := d.run(o, f)
+			if st.Hit == "" {
+				st.Fault = nil
+			}
+			h.Steps = append(h.Steps, st)
 		}
 		emit(r, h, map[string]any{"corpus": c.name})
 		r.Count("corpus")
@@ -68,9 +86,13 @@ func TestC10(t *testing.T) {
 	}
 
 	// ---- thorough: every call index of the (first faultable) operation of each corpus scenario
-	if r.Tier == "thorough" {
+	{
 		for _, c := range corpus {
 			if c.fault < 0 {
+				continue
+			}
+			// quick: every fault address of a 3-instance cpu-bound deployment on one node; thorough: of every corpus scenario
+			if r.Tier != "thorough" && c.name != "bound-start-2nd-fails" {
 				continue
 			}
 			// fault-free run to learn the calls of the operation
@@ -78,12 +100,16 @@ func TestC10(t *testing.T) {
 				d := newDriver(t, r.Rng, true)
 				defer d.w.Close()
 				h := &history{Strict: true}
-				d.setup(h, 2, 3, 1000)
+				if c.small {
+					d.setupSmall(h)
+				} else {
+					d.setup(h, 2, 3, 1000)
+				}
 				var log []cw.Call
 				for i, o := range c.ops {
 					d.opi++
 					o.Opi = d.opi
-					if o.Kind == "remove" || o.Kind == "dissociate" || o.Kind == "realloc" || o.Kind == "replace" {
+					if len(o.IDs) == 0 && (o.Kind == "remove" || o.Kind == "dissociate" || o.Kind == "realloc" || o.Kind == "replace") {
 						live := d.liveList()
 						if len(live) == 0 {
 							continue
@@ -139,7 +165,7 @@ func TestC10(t *testing.T) {
 	}
 
 	// ---- random histories
-	n := r.N(12, 300)
+	n := r.N(8, 300)
 	for i := 0; i < n; i++ {
 		strict := r.Rng.Intn(2) == 0
 		d := newDriver(t, r.Rng, strict)
